@@ -298,6 +298,9 @@ func c15Gen() *rapid.Generator[c15Case] {
 		if (op == "mkdir" || op == "verify" || op == "massive-mkdir") && hasDupRoots(f) {
 			uniqRoots(f)
 		}
+		if !fsOp && rapid.IntRange(0, 39).Draw(t, "long") == 0 {
+			withLongName(t, f)
+		}
 		c := c15Case{Forest: f, Op: op}
 		c.Sp1 = genSpelling(f.HeadingOK()).Draw(t, "sp1")
 		c.Sp2 = genSpelling(f.HeadingOK()).Draw(t, "sp2")
